@@ -9,6 +9,9 @@ package scen
 
 import (
 	"bytes"
+	"crypto/ecdsa"
+	"crypto/ed25519"
+	"crypto/elliptic"
 	"crypto/rand"
 	"crypto/rsa"
 	"encoding/json"
@@ -19,6 +22,7 @@ import (
 	"net/url"
 	"os"
 	"path/filepath"
+	"regexp"
 	"sort"
 	"strconv"
 	"strings"
@@ -26,6 +30,7 @@ import (
 	"time"
 
 	"github.com/golang-jwt/jwt/v4"
+	"github.com/labstack/echo/v4"
 	"github.com/spf13/viper"
 
 	"github.com/mimiro-io/datahub/internal/security"
@@ -49,6 +54,8 @@ type c16Keys struct {
 	foreign   *rsa.PrivateKey
 	client    *rsa.PrivateKey
 	clientPub string // PEM
+	ec        map[string]*ecdsa.PrivateKey // by JWT alg name
+	ed        ed25519.PrivateKey
 }
 
 var c16KeysOnce *c16Keys
@@ -85,7 +92,19 @@ func c16GetKeys(ctx *Ctx) (*c16Keys, error) {
 	if err != nil {
 		return nil, err
 	}
-	c16KeysOnce = &c16Keys{node: node, nodePub: pub, foreign: foreign, client: client, clientPub: cp}
+	ec := map[string]*ecdsa.PrivateKey{}
+	for alg, curve := range map[string]elliptic.Curve{"ES256": elliptic.P256(), "ES384": elliptic.P384(), "ES512": elliptic.P521()} {
+		k, err := ecdsa.GenerateKey(curve, rand.Reader)
+		if err != nil {
+			return nil, err
+		}
+		ec[alg] = k
+	}
+	_, ed, err := ed25519.GenerateKey(rand.Reader)
+	if err != nil {
+		return nil, err
+	}
+	c16KeysOnce = &c16Keys{node: node, nodePub: pub, foreign: foreign, client: client, clientPub: cp, ec: ec, ed: ed}
 	return c16KeysOnce, nil
 }
 
@@ -126,7 +145,14 @@ func (h *c16Hub) Close() {
 }
 
 func (h *c16Hub) ensureDatasets(fill bool) error {
-	for _, n := range c16Datasets {
+	names := c16Datasets
+	if h.ctx.Arg("pctds", "0") == "1" {
+		// probe (not part of the plans): a dataset whose NAME is the percent-encoding of the
+		// name of another one; handlers that take the raw path parameter as the name read it
+		// when the request path spells "a" as %61, while the authorizer decides on /datasets/a
+		names = append(append([]string{}, names...), "%61")
+	}
+	for _, n := range names {
 		if h.app.Dsm.IsDataset(n + "_renamed") {
 			_ = h.app.Dsm.DeleteDataset(n + "_renamed")
 		}
@@ -230,10 +256,14 @@ func (h *c16Hub) clientToken(id string) (string, error) {
 	return tr.AccessToken, nil
 }
 
-// requests of every registered route
+// requests of every registered route, in every path spelling the router routes
 func (h *c16Hub) requests(neighbours bool) []c16Req {
 	var rs []c16Req
 	seen := map[string]bool{}
+	registered := map[string]bool{}
+	for _, r := range h.app.E.Routes() {
+		registered[r.Method+" "+r.Path] = true
+	}
 	for _, r := range h.app.E.Routes() {
 		for _, q := range c16Concretize(r.Method, r.Path, neighbours) {
 			if !seen[q.key()] {
@@ -242,7 +272,63 @@ func (h *c16Hub) requests(neighbours bool) []c16Req {
 			}
 		}
 	}
+	if h.ctx.Arg("spell", "1") != "0" {
+		plain := rs
+		for _, q := range plain {
+			sp := c16Spellings(q.Route, q.Path)
+			names := make([]string, 0, len(sp))
+			for n := range sp {
+				names = append(names, n)
+			}
+			sort.Strings(names)
+			for _, n := range names {
+				sq := q
+				sq.Spell, sq.Path = n, sp[n]
+				if seen[sq.key()] {
+					continue
+				}
+				seen[sq.key()] = true
+				h.ctx.Out.Stat("spelled_paths_generated", 1)
+				sq.Dec = c16Decode(sq.Path)
+				if sq.Dec == "" {
+					h.ctx.Out.Stat("spelled_paths_not_a_request_target", 1)
+					continue
+				}
+				route := h.routeOf(sq.Method, sq.Path)
+				if !registered[sq.Method+" "+route] {
+					// the router answers with its own 404 / 405: nothing is served, nothing to judge
+					h.ctx.Out.Stat("spelled_paths_not_routed", 1)
+					h.ctx.Out.Stat("spelling_not_routed:"+n, 1)
+					continue
+				}
+				h.ctx.Out.Stat("spelling_routed:"+n, 1)
+				if route != q.Route {
+					h.ctx.Out.Stat("spelled_paths_routed_to_another_route", 1)
+				}
+				sq.Route = route
+				sq.Open = c16IsOpen(route)
+				if sq.Method == "PATCH" && route != "/datasets/:dataset" {
+					sq.Body = ""
+				}
+				rs = append(rs, sq)
+			}
+		}
+	}
 	return c16OrderRequests(rs)
+}
+
+// routeOf asks the real router which route pattern it picks for a request target
+// ("" / an unregistered pattern = the router's own not-found / method-not-allowed answer).
+func (h *c16Hub) routeOf(method, target string) (route string) {
+	defer func() {
+		if p := recover(); p != nil {
+			route = ""
+		}
+	}()
+	req := httptest.NewRequest(method, target, nil)
+	c := h.app.E.NewContext(req, httptest.NewRecorder())
+	h.app.E.Router().Find(method, echo.GetPath(req), c)
+	return c.Path()
 }
 
 func (h *c16Hub) do(q c16Req, hdr map[string]string) c16Resp {
@@ -269,11 +355,67 @@ type c16Variant struct {
 	Listed bool // one of the defects the statement lists
 }
 
-var c16Variants = []c16Variant{
+var c16BaseVariants = []c16Variant{
 	{"absent", true}, {"garbage", true}, {"expired", true}, {"wrong-key", true}, {"wrong-issuer", true},
 	{"wrong-audience", true}, {"alg-hs256", true}, {"alg-none", true},
 	// not in the statement's list, but "a token with an accepted issuer and audience" is demanded
 	{"no-audience", false}, {"no-issuer", false},
+}
+
+// c16TheAlg is the one signing algorithm the hub issues its tokens with; every other one
+// is "the wrong algorithm" of the statement.
+const c16TheAlg = "RS256"
+
+// c16Variants: the listed defects plus the algorithm dimension: one variant per signing
+// algorithm the JWT library knows (jwt.GetAlgorithms()), each token otherwise without a
+// defect (admin role, right issuer / audience / expiry) and CORRECTLY signed with the
+// strongest key at hand for that algorithm: the node's own RSA key for the RSA families
+// (RS*, PS*), the node's public key PEM as the secret for HMAC (HS*), fresh keys for
+// ECDSA / EdDSA (there is no node key of that type).
+func c16Variants() []c16Variant {
+	vs := append([]c16Variant{}, c16BaseVariants...)
+	have := map[string]bool{}
+	for _, v := range vs {
+		have[v.Name] = true
+	}
+	algs := jwt.GetAlgorithms()
+	sort.Strings(algs)
+	for _, a := range algs {
+		n := "alg-" + strings.ToLower(a)
+		if a == c16TheAlg || have[n] {
+			continue
+		}
+		have[n] = true
+		vs = append(vs, c16Variant{n, true})
+	}
+	return vs
+}
+
+// c16AlgKey: signing method and key for an "alg-<name>" variant.
+func c16AlgKey(keys *c16Keys, variant string) (jwt.SigningMethod, any, error) {
+	for _, a := range jwt.GetAlgorithms() {
+		if "alg-"+strings.ToLower(a) != variant {
+			continue
+		}
+		m := jwt.GetSigningMethod(a)
+		switch m.(type) {
+		case *jwt.SigningMethodRSA, *jwt.SigningMethodRSAPSS:
+			return m, keys.node, nil
+		case *jwt.SigningMethodHMAC:
+			return m, keys.nodePub, nil // the classic confusion: public key bytes as HMAC secret
+		case *jwt.SigningMethodECDSA:
+			if k := keys.ec[a]; k != nil {
+				return m, k, nil
+			}
+		case *jwt.SigningMethodEd25519:
+			return m, keys.ed, nil
+		}
+		if a == "none" {
+			return m, jwt.UnsafeAllowNoneSignatureType, nil
+		}
+		return nil, nil, fmt.Errorf("no key for algorithm %s", a)
+	}
+	return nil, nil, fmt.Errorf("unknown variant %s", variant)
 }
 
 // c16Mint crafts a token carrying the ADMIN role (the strongest claim) with one defect.
@@ -302,18 +444,17 @@ func c16Mint(keys *c16Keys, variant string) (hdr map[string]string, err error) {
 		claims.Issuer = "node:someone-else"
 	case "wrong-audience":
 		claims.Audience = jwt.ClaimStrings{"node:someone-else"}
-	case "alg-hs256":
-		method = jwt.SigningMethodHS256
-		key = keys.nodePub // the classic confusion: public key bytes as HMAC secret
-	case "alg-none":
-		method = jwt.SigningMethodNone
-		key = jwt.UnsafeAllowNoneSignatureType
 	case "no-audience":
 		claims.Audience = nil
 	case "no-issuer":
 		claims.Issuer = ""
 	default:
-		return nil, fmt.Errorf("unknown variant %s", variant)
+		if !strings.HasPrefix(variant, "alg-") {
+			return nil, fmt.Errorf("unknown variant %s", variant)
+		}
+		if method, key, err = c16AlgKey(keys, variant); err != nil {
+			return nil, err
+		}
 	}
 	s, err := jwt.NewWithClaims(method, claims).SignedString(key)
 	if err != nil {
@@ -344,7 +485,7 @@ func c16Tokens(ctx *Ctx) error {
 		return nil
 	}
 	complete := true
-	for _, v := range c16Variants {
+	for _, v := range c16Variants() {
 		id := outHash(map[string]any{"token": v.Name})
 		ctx.Out.Case(id, ctx.Seed, map[string]any{"kind": "token", "variant": v.Name, "requests": len(reqs)}, true, []string{"token:" + v.Name})
 		hdr, err := c16Mint(keys, v.Name)
@@ -353,13 +494,22 @@ func c16Tokens(ctx *Ctx) error {
 			complete = false
 			continue
 		}
+		ctx.Out.Stat("token_variants", 1)
+		if strings.HasPrefix(v.Name, "alg-") {
+			ctx.Out.Stat("token_variants_algorithm", 1)
+		}
 		var servedAt []string
 		var firstStatus int
+		spelledServed := map[string][]c16Req{}
+		var spelledStatus = map[string]int{}
 		for i, q := range reqs {
 			ctx.Out.Begin(id, i, q.key())
 			r := h.do(q, hdr)
 			ctx.Out.Ack(id, i, nil)
 			ctx.Out.Stat("token_requests", 1)
+			if q.Spell != "" {
+				ctx.Out.Stat("token_requests_spelled_path", 1)
+			}
 			if q.Open {
 				ctx.Out.Stat("token_requests_open_route", 1)
 				continue
@@ -369,6 +519,13 @@ func c16Tokens(ctx *Ctx) error {
 				continue
 			}
 			if c16Served(r.Status) {
+				if q.Spell != "" {
+					spelledServed[q.Spell] = append(spelledServed[q.Spell], q)
+					if _, ok := spelledStatus[q.Spell]; !ok {
+						spelledStatus[q.Spell] = r.Status
+					}
+					continue
+				}
 				if len(servedAt) == 0 {
 					firstStatus = r.Status
 				}
@@ -377,11 +534,33 @@ func c16Tokens(ctx *Ctx) error {
 				ctx.Out.Stat("token_rejected", 1)
 			}
 		}
+		spells := make([]string, 0, len(spelledServed))
+		for n := range spelledServed {
+			spells = append(spells, n)
+		}
+		sort.Strings(spells)
+		for _, n := range spells {
+			var only []string
+			for _, q := range spelledServed[n] {
+				only = append(only, q.key())
+			}
+			if len(servedAt) > 0 {
+				// plainly spelled requests are served with this token as well: one cause (the token check)
+				servedAt = append(servedAt, only...)
+				continue
+			}
+			ctx.Out.Stat("token_served", int64(len(only)))
+			ctx.Out.Viol(id, "C16", "token-"+v.Name+"-served-on-spelled-path:"+c16SpellFamily(n),
+				fmt.Sprintf("request with token defect '%s' (admin role claimed) was served on %d requests whose path is spelled '%s' although every plainly spelled request is rejected, e.g. %s -> %d", v.Name, len(only), n, only[0], spelledStatus[n]),
+				"401/403 on every protected route", only, map[string]any{"variant": v.Name, "spelling": n})
+		}
 		if len(servedAt) > 0 {
 			ctx.Out.Stat("token_served", int64(len(servedAt)))
 			ctx.Out.Viol(id, "C16", "token-"+v.Name+"-served",
 				fmt.Sprintf("request with token defect '%s' (admin role claimed) was served on %d routes, e.g. %s -> %d", v.Name, len(servedAt), servedAt[0], firstStatus),
 				"401/403 on every protected route", servedAt, map[string]any{"variant": v.Name})
+		}
+		if len(servedAt) > 0 || len(spelledServed) > 0 {
 			// served mutations (DELETE /datasets wipes the store) changed the hub: take a fresh one
 			h.Close()
 			if h, err = c16NewHub(ctx, keys); err != nil {
@@ -532,22 +711,22 @@ func c16Class(acl []C16AC, q c16Req) string {
 		return "no-acl-check:" + q.Method + " " + q.Route
 	}
 	n := c16Needed(q.Method)
-	granted := c16Granted(acl, q.Path, n)
-	denied := c16Denied(acl, q.Path, n)
+	granted := c16Granted(acl, q.dec(), n)
+	denied := c16Denied(acl, q.dec(), n)
 	switch {
 	case granted && denied:
 		return "deny-overridden-by-allow"
-	case !granted && n == "write" && c16Granted(acl, q.Path, "read"):
+	case !granted && n == "write" && c16Granted(acl, q.dec(), "read"):
 		return "read-suffices-for-" + q.Method
 	case !granted && denied:
 		return "deny-entry-grants" // nothing allows it, an explicit deny matches, and it is served all the same
 	}
 	allowMatches, denyMatches := false, false
 	for _, a := range acl {
-		if !a.Deny && c16Match(a.Resource, q.Path) {
+		if !a.Deny && c16Match(a.Resource, q.dec()) {
 			allowMatches = true
 		}
-		if a.Deny && c16Match(a.Resource, q.Path) {
+		if a.Deny && c16Match(a.Resource, q.dec()) {
 			denyMatches = true
 		}
 	}
@@ -567,7 +746,7 @@ func c16RunACL(ctx *Ctx, h *c16Hub, acl []C16AC, reqs []c16Req) (reboot bool, er
 	id := outHash(cs)
 	interact := false
 	for _, q := range reqs {
-		if c16Interacts(acl, q.Path) {
+		if c16Interacts(acl, q.dec()) {
 			interact = true
 			break
 		}
@@ -600,6 +779,12 @@ func c16RunACL(ctx *Ctx, h *c16Hub, acl []C16AC, reqs []c16Req) (reboot bool, er
 		seen[class] = true
 		ctx.Out.Viol(id, "C16", class, msg, exp, got, extra)
 	}
+	servedPlain := map[string]bool{} // method + path of plainly spelled requests that were served against the reference
+	type late struct {
+		q      c16Req
+		status int
+	}
+	var spelledViol []late
 	for i, q := range reqs {
 		if q.Open {
 			continue
@@ -608,12 +793,16 @@ func c16RunACL(ctx *Ctx, h *c16Hub, acl []C16AC, reqs []c16Req) (reboot bool, er
 		r := h.do(q, hdr)
 		ctx.Out.Ack(id, i, nil)
 		ctx.Out.Stat("acl_requests", 1)
+		if q.Spell != "" {
+			ctx.Out.Stat("acl_requests_spelled_path", 1)
+		}
 		if r.Panicked != nil {
 			viol("panic-escaped-router", fmt.Sprintf("%s: panic escaped ServeHTTP: %v", q.key(), r.Panicked), nil, nil, nil)
 			continue
 		}
 		served := c16Served(r.Status)
-		may := c16MayServe(acl, q.Method, q.Path)
+		// the reference decides on the decoded path: that is the path the ACL entries speak about
+		may := c16MayServe(acl, q.Method, q.dec())
 		switch {
 		case served && may:
 			ctx.Out.Stat("served_and_granted", 1)
@@ -621,10 +810,17 @@ func c16RunACL(ctx *Ctx, h *c16Hub, acl []C16AC, reqs []c16Req) (reboot bool, er
 			ctx.Out.Stat("rejected_although_granted", 1) // over-rejection is not a violation
 		case !served && !may:
 			ctx.Out.Stat("rejected_not_granted", 1)
-			if c16Interacts(acl, q.Path) {
+			if c16Interacts(acl, q.dec()) {
 				ctx.Out.Stat("rejected_not_granted_interacting", 1)
+				if q.Spell != "" {
+					ctx.Out.Stat("rejected_not_granted_interacting_spelled_path", 1)
+				}
 			}
+		case served && !may && q.Spell != "":
+			spelledViol = append(spelledViol, late{q, r.Status}) // judged after the plain spellings
 		case served && !may:
+			servedPlain[q.Method+" "+q.Path] = true
+			servedPlain[q.Method+" "+q.Route+" "+c16Class(acl, q)] = true
 			effect := ""
 			if q.Method == "PATCH" && r.Status == 200 {
 				nm := strings.TrimPrefix(q.Path, "/datasets/")
@@ -638,9 +834,24 @@ func c16RunACL(ctx *Ctx, h *c16Hub, acl []C16AC, reqs []c16Req) (reboot bool, er
 		if served && q.Method == "DELETE" && q.Route == "/datasets" {
 			reboot = true
 		}
-		if served && q.Method == "GET" && q.Path == "/datasets" && r.Status == 200 {
+		if served && q.Method == "GET" && q.dec() == "/datasets" && r.Status == 200 {
 			c16CheckListing(acl, r.Body, viol)
 		}
+		if served && q.Method == "GET" && r.Status == 200 {
+			c16CheckContent(acl, q, r.Body, viol)
+		}
+	}
+	for _, l := range spelledViol {
+		q := l.q
+		if servedPlain[q.Method+" "+q.dec()] || servedPlain[q.Method+" "+q.Route+" "+c16Class(acl, q)] {
+			// the plain spelling of the same path (or a plainly spelled request of the same route, for the
+			// same reason) is served as well: one cause, reported with the plain request
+			ctx.Out.Stat("spelled_path_served_like_plain", 1)
+			continue
+		}
+		viol("path-spelling:"+c16SpellFamily(q.Spell)+":"+c16Class(acl, q),
+			fmt.Sprintf("client with ACL %v was served %s, whose path decodes to %s (needs %s; the reference refuses that path, and the plainly spelled request is refused by the hub as well) -> status %d", acl, q.key(), q.dec(), c16Needed(q.Method), l.status),
+			"401/403", l.status, map[string]any{"request": q.key(), "decoded": q.dec(), "spelling": q.Spell, "route": q.Method + " " + q.Route})
 	}
 	if !reboot {
 		// dataset-list filtering: grant the list route itself and look at the names it reveals
@@ -672,6 +883,37 @@ func c16CheckListing(acl []C16AC, body []byte, viol func(class, msg string, exp,
 			class = "dataset-list-deny-overridden"
 		}
 		viol(class, fmt.Sprintf("GET /datasets reveals %q to a client with ACL %v", n.Name, acl), "name not listed", n.Name, nil)
+	}
+}
+
+// c16ContentMarker finds the marker value ensureDatasets puts into every dataset (property
+// k0 of its first entity = the dataset's name) in a served entities / changes body.
+var c16ContentMarker = regexp.MustCompile(`:k0":"([^"]*)"`)
+
+// c16CheckContent: whatever the spelling of the request was, the content of dataset D is
+// the resource /datasets/D/<entities|changes>; it must not be served unless the ACL
+// grants reading that path and does not deny it.
+func c16CheckContent(acl []C16AC, q c16Req, body []byte, viol func(class, msg string, exp, got any, extra map[string]any)) {
+	tail := ""
+	switch q.Route {
+	case "/datasets/:dataset/entities":
+		tail = "/entities"
+	case "/datasets/:dataset/changes":
+		tail = "/changes"
+	default:
+		return
+	}
+	for _, m := range c16ContentMarker.FindAllSubmatch(body, -1) {
+		res := "/datasets/" + string(m[1]) + tail
+		if res == q.dec() || c16MayServe(acl, "GET", res) {
+			continue // the named dataset itself is judged by the status rule
+		}
+		class := "content-of-ungranted-dataset-served"
+		if q.Spell != "" {
+			class = "path-spelling:" + c16SpellFamily(q.Spell) + ":" + class
+		}
+		viol(class, fmt.Sprintf("client with ACL %v asked %s (path decodes to %s) and was served the content of dataset %q, i.e. the resource %s which the ACL does not let it read", acl, q.key(), q.dec(), m[1], res),
+			"401/403", 200, map[string]any{"request": q.key(), "served_resource": res})
 	}
 }
 
@@ -960,8 +1202,12 @@ func c16OPA(ctx *Ctx) error {
 				r := h.do(q, bearer(tok))
 				ctx.Out.Ack(id, i, nil)
 				ctx.Out.Stat("opa_requests", 1)
-				if c16Served(r.Status) && !c16MayServe(c.ACL, q.Method, q.Path) {
-					ctx.Out.Viol(id, "C16", c16Class(c.ACL, q), fmt.Sprintf("OPA refused and ACL %v does not grant %s, but it was served -> %d", c.ACL, q.key(), r.Status), "403", r.Status, nil)
+				if c16Served(r.Status) && !c16MayServe(c.ACL, q.Method, q.dec()) {
+					class := c16Class(c.ACL, q)
+					if q.Spell != "" {
+						class = "path-spelling:" + c16SpellFamily(q.Spell) + ":" + class
+					}
+					ctx.Out.Viol(id, "C16", class, fmt.Sprintf("OPA refused and ACL %v does not grant %s (path decodes to %s), but it was served -> %d", c.ACL, q.key(), q.dec(), r.Status), "403", r.Status, nil)
 				}
 				if c16Served(r.Status) && q.Method == "DELETE" && q.Route == "/datasets" {
 					reboot = true
